@@ -12,7 +12,9 @@ from . import c12
 PROPERTY_ID = 'C14'
 LEVEL = 'exploration'
 RULE = ('histories on the real Bus with up to 4 raw scripted clients: connect+Hello, disconnect, uncontested RequestName / '
-        'ReleaseName, AddMatch / RemoveMatch (rules from the C12 generator), and bursts of 1-4 in-flight messages: unicast '
+        'ReleaseName, owners that allow replacement and take-overs by other clients (the queue the bus lists afterwards '
+        'is adopted where the statement leaves it open), AddMatch / RemoveMatch (rules from the C12 generator; a third of '
+        'the broadcast messages are derived from one of the rules with one constrained place perturbed), and bursts of 1-4 in-flight messages: unicast '
         'messages of all four types addressed to a unique name, an owned well-known name, an unowned name or the bus '
         'itself, with the sender field absent, true or forged, in either byte order, and broadcast signals; the bytes of a '
         'burst sit in per-client queues and the bus reads them in a drawn interleaving of (client, chunk size) choices. '
@@ -60,6 +62,7 @@ def run_history(case):
     names_seen = []
     owner = {}            # well-known name -> client id
     waiting = {}          # well-known name -> client ids queued behind the owner
+    replaceable = set()   # well-known names whose current owner allowed replacement
     rules = {}            # client id -> list of rule dicts
     next_id = 0
 
@@ -99,20 +102,59 @@ def run_history(case):
                         waiting[n].remove(ci)
                 for n in [n for n, o in owner.items() if o == ci]:
                     del owner[n]
+                    replaceable.discard(n)
                     if waiting.get(n):
                         owner[n] = waiting[n].pop(0)
                 rules[ci] = []
                 continue
-            if kind == 'own':
+            if kind in ('own', 'ownr'):
                 ci = live[op[1] % len(live)]
                 name = WK[op[2] % 2]
                 if name in owner:
                     continue     # contention is C13's business
-                r = clients[ci].call_bus('RequestName', 'su', [name, 4])
+                r = clients[ci].call_bus('RequestName', 'su', [name, 4 | (1 if kind == 'ownr' else 0)])
                 if r is None or r['type'] != 2 or r['body'] != [1]:
                     out.append(Disc('own.refused', '%s: %r' % (where, r and r['body'])))
                     break
                 owner[name] = ci
+                if kind == 'ownr':
+                    replaceable.add(name)
+                continue
+            if kind == 'takeover':
+                # another client asks to replace the owner: succeeds exactly when the owner allowed it
+                name = WK[op[2] % 2]
+                ci = live[op[1] % len(live)]
+                if name not in owner or owner[name] == ci:
+                    continue
+                r = clients[ci].call_bus('RequestName', 'su', [name, 2])
+                if name in replaceable:
+                    if r is None or r['type'] != 2 or r['body'] != [1]:
+                        out.append(Disc('takeover.refused', '%s: %r' % (where, r and r['body'])))
+                        break
+                    old = owner[name]
+                    owner[name] = ci
+                    replaceable.discard(name)
+                    w = waiting.setdefault(name, [])
+                    if ci in w:
+                        w.remove(ci)
+                    # whether the displaced owner now waits behind the new one is not stated: adopt what the bus lists
+                    q = clients[ci].call_bus('ListQueuedOwners', 's', [name])
+                    listed = q['body'][0] if q is not None and q['type'] == 2 and q['body'] else None
+                    ids = None
+                    if isinstance(listed, list):
+                        byname = {clients[x].name: x for x in live}
+                        ids = [byname.get(n, n) for n in listed]
+                    if not ids or ids[0] != ci or not (ids[1:] == w or (old in ids[1:] and [x for x in ids[1:] if x != old] == w)):
+                        out.append(Disc('takeover.queue', '%s: queue listed as %r; new owner %r, waiting %r, displaced %r' % (
+                            where, ids, ci, w, old)))
+                        break
+                    waiting[name] = ids[1:]
+                else:
+                    if r is None or r['type'] != 2 or r['body'] != [2]:
+                        out.append(Disc('takeover.not-queued', '%s: %r' % (where, r and r['body'])))
+                        break
+                    if ci not in waiting.setdefault(name, []):
+                        waiting[name].append(ci)
                 continue
             if kind == 'wait':
                 # a second client queues for an owned name (flags 0): the owner does not change now
@@ -135,6 +177,7 @@ def run_history(case):
                     out.append(Disc('disown.refused', '%s: %r' % (where, r and r['body'])))
                     break
                 del owner[name]
+                replaceable.discard(name)
                 if waiting.get(name):
                     owner[name] = waiting[name].pop(0)
                 continue
@@ -333,8 +376,12 @@ def classify(case):
             nlive = min(4, nlive + 1)
         elif op[0] == 'disconnect':
             nlive = max(0, nlive - 1)
-        elif op[0] == 'own':
+        elif op[0] in ('own', 'ownr'):
             owned.add(op[2] % 2)
+        elif op[0] == 'takeover':
+            labels.append('takeover_attempt')
+            if op[2] % 2 in owned:
+                owner_changed = True
         elif op[0] == 'wait':
             labels.append('queued_waiter')
         elif op[0] == 'disown':
@@ -385,14 +432,14 @@ def random_history(draw, tier):
         r.pop('raises', None)
     ops = []
     for _ in range(draw(st.integers(2, 16))):
-        k = draw(st.sampled_from(['burst'] * 5 + ['own', 'own', 'wait', 'disown', 'addmatch', 'addmatch', 'removematch',
-                                                  'connect', 'disconnect']))
+        k = draw(st.sampled_from(['burst'] * 6 + ['own', 'ownr', 'ownr', 'wait', 'takeover', 'takeover', 'disown', 'addmatch',
+                                                  'addmatch', 'removematch', 'connect', 'disconnect']))
         if k == 'burst':
             msgs = [draw(burst_msg(rules)) for _ in range(draw(st.integers(1, 4)))]
             sched = draw(st.lists(st.tuples(st.integers(0, 3), st.sampled_from([0, 0, 1, 7, 16, 40, 100000])).map(list),
                                   min_size=1, max_size=6))
             ops.append(['burst', msgs, sched])
-        elif k in ('own', 'disown', 'wait'):
+        elif k in ('own', 'ownr', 'disown', 'wait', 'takeover'):
             ops.append([k, draw(st.integers(0, 3)), draw(st.integers(0, 1))])
         elif k in ('addmatch', 'removematch'):
             ops.append([k, draw(st.integers(0, 3)), draw(st.integers(0, 5))])
@@ -440,6 +487,12 @@ def enum_fixed(tier):
     for closing in (['disown', 0, 0], ['disconnect', 0]):
         yield {'nclients': 3, 'rules': [{}],
                'ops': [['own', 0, 0], ['wait', 1, 0], ['burst', [uc], [[0, 0]]], closing, ['burst', [uc], [[0, 0]]]]}
+    # a replaceable owner is replaced; the replacer then releases or leaves; where does a call to the name go at each stage?
+    for closing in (['disown', 0, 0], ['disconnect', 1]):
+        for leaving in ([], [['disconnect', 0]]):
+            yield {'nclients': 3, 'rules': [{}],
+                   'ops': [['ownr', 0, 0], ['burst', [uc], [[0, 0]]], ['takeover', 1, 0], ['burst', [uc], [[0, 0]]]] + leaving +
+                          [closing, ['burst', [uc], [[0, 0]]], ['own', 1, 0], ['burst', [uc], [[0, 0]]]]}
     # the owner of a name and a client waiting for it both write that name into the sender field
     for frm in (0, 1):
         for t in (1, 2, 3, 4):
